@@ -151,9 +151,7 @@ SPEC = dict(
     ],
     assumptions=["no function calls, accesses or nested assignments inside the expression (evaluation has no side effects); an "
                  "assignment elsewhere than `name := <expr>` as the whole program: only the tree is compared",
-                 "string literals contain no {{ }} (interpolation is C14)",
-                 "environment lists are non-empty or nil and hold no NaN (reflect.DeepEqual distinguishes a nil from an empty "
-                 "non-nil slice and short-cuts on identical backing arrays; neither can arise from literals of the fragment)"],
+                 "string literals contain no {{ }} (interpolation is C14)"],
     decode=decode,
 )
 
